@@ -818,6 +818,46 @@ theorem C02_date_int_string_no_silent_loss (s : Bytes) :
 example : StrSpec.strSpec .date [50, 48, 50, 51, 45, 48, 50, 45, 50, 57] = .merr := by decide   -- "2023-02-29"
 example : StrSpec.parseDate [49, 57, 54, 57, 45, 49, 50, 45, 51, 49] = some (-1) := by decide    -- "1969-12-31"
 
+/-- uuid / timeuuid from a string: `ok` only for 32 hex digits with hyphens between bytes (upper case, missing or extra
+    hyphens are accepted — braces, `urn:uuid:`, whitespace, 31 / 33 digits are not); the bytes are those digits and the
+    canonical string a `*string` gets back denotes the same UUID -/
+theorem C02_uuid_string_no_silent_loss (t : CqlTy) (ht : isUuid t) (s : Bytes) :
+    (∀ b back, StrSpec.strSpec t s = .ok b back →
+      StrSpec.parseUUIDLit s = some b ∧ back = uuidString b ∧ StrSpec.parseUUIDLit back = some b) ∧
+    (StrSpec.parseUUIDLit s = none → StrSpec.strSpec t s = .merr) := by
+  have key : StrSpec.strSpec t s =
+      (match StrSpec.parseUUIDLit s with
+       | none => .merr
+       | some b => (match StrSpec.parseUUIDLit (uuidString b) with
+          | some b' => if b' = b then .ok b (uuidString b) else .inconsistent
+          | none => .inconsistent)) := by
+    rcases ht with rfl | rfl <;> rfl
+  rw [key]
+  refine ⟨?_, ?_⟩
+  · intro b back h
+    cases hp : StrSpec.parseUUIDLit s with
+    | none => rw [hp] at h; cases h
+    | some b0 =>
+      rw [hp] at h
+      simp only at h
+      cases hb : StrSpec.parseUUIDLit (uuidString b0) with
+      | none => rw [hb] at h; cases h
+      | some b' =>
+        rw [hb] at h
+        simp only at h
+        split at h
+        · rename_i he
+          injection h with h1 h2
+          subst h1; subst h2; subst he
+          exact ⟨rfl, rfl, hb⟩
+        · cases h
+  · intro hp
+    rw [hp]
+
+example : StrSpec.parseUUIDLit /- "{6ba7b810-9dad-11d1-80b4-00c04fd430c8}" -/ [123, 54, 98, 97, 55, 98, 56, 49, 48, 45, 57, 100, 97, 100, 45, 49, 49, 100, 49, 45, 56, 48, 98, 52, 45, 48, 48, 99, 48, 52, 102, 100, 52, 51, 48, 99, 56, 125] = none := by decide
+example : StrSpec.parseUUIDLit /- "6BA7B8109DAD11D180B400C04FD430C8" -/ [54, 66, 65, 55, 66, 56, 49, 48, 57, 68, 65, 68, 49, 49, 68, 49, 56, 48, 66, 52, 48, 48, 67, 48, 52, 70, 68, 52, 51, 48, 67, 56] =
+    some [0x6b, 0xa7, 0xb8, 0x10, 0x9d, 0xad, 0x11, 0xd1, 0x80, 0xb4, 0x00, 0xc0, 0x4f, 0xd4, 0x30, 0xc8] := by decide
+
 /-- FULL STATEMENT (does not hold): "… into any documented target type able to represent the value".  2^63 written by a
     bare uint64 into a varint column (00 80 00 00 00 00 00 00 00) decodes into *uint64 and *big.Int, but `*uint`, which
     can hold it, gets an error (KF-C12-12) and so does `*string` (KF-C02-5).
